@@ -46,6 +46,13 @@ def cases(tier, seed):
                                            "na_prob": 0.08}):
         spec["kind"] = "pipe"
         out.append(spec)
+    nstress = 8 if tier == "quick" else 1200
+    for i in range(nstress):
+        ff = common.FFS[i % 6] if False else ["AMBER", "CHARMM", "PARSE", "TYL06", "PEOEPB", "SWANSON"][i % 6]
+        out.append({"kind": "pipe", "w": "synth", "seed": seed * 920001 + i, "ff": ff, "opts": [f"--ff={ff}"],
+                    "p": {"crowd_prob": 0.6, "crowd_heavy_prob": 1.0, "minlen": 5, "maxlen": 9, "na": False, "waters": [0, 3],
+                          "hydrogens": ["none"], "pool": ["ARG", "LYS", "GLU", "GLN", "MET", "ILE", "LEU", "TRP", "PHE",
+                                                          "TYR", "HIS", "ASN", "ASP", "THR", "SER"]}})
     return out
 
 
